@@ -15,7 +15,7 @@ RULE = ('cases: seeded generators for (a) subsample on ordered observation grids
         '(kind, structural signature).')
 ASSUMPTIONS = ['report_times and times are ordered (documented domain)', 'PGF evaluation points lie in (0,1]',
                'estimate_R0 is only judged on graphs with at least one edge']
-REQUIRED = ['multigraph_inputs', 'subsample_reports_checked', 'time_shift_checked', 'pgf_points_checked', 'pnk_rows_checked', 'R0_checked',
+REQUIRED = ['graphs_edited_in_place_between_calls', 'multigraph_inputs', 'subsample_reports_checked', 'time_shift_checked', 'pgf_points_checked', 'pnk_rows_checked', 'R0_checked',
             'subsample_rejections_checked']
 BUDGET = {'quick': 120, 'thorough': 900}
 
@@ -138,6 +138,29 @@ def _graph_case(case, res):
     G, lab = gen.build_graph(desc)
     if multi:
         bump(res, 'multigraph_inputs')
+    if r.random() < 0.4 and G.number_of_edges() >= 1 and G.number_of_nodes() >= 3 and not multi:
+        # "any history": the helpers have been called on this very graph object before, and the graph was then edited in place
+        # (endpoints of edges moved: same number of nodes and edges, different degrees; sometimes a node added)
+        for f in (EoN.get_Pk, EoN.get_Pnk, lambda g: EoN.estimate_R0(g, transmissibility=0.5)):
+            try:
+                f(G)
+            except Exception:
+                pass
+        ops = []
+        for _ in range(r.randint(1, 3)):
+            u, v = r.choice(list(G.edges()))
+            cand = [w for w in G if w != u and not G.has_edge(u, w)]
+            if cand:
+                w = r.choice(cand)
+                G.remove_edge(u, v)
+                G.add_edge(u, w)
+                ops.append([repr(u), repr(v), repr(w)])
+        if r.random() < 0.3:
+            G.add_edge(list(G)[0], ('new', 'node'))
+            ops.append('added a node')
+        if ops:
+            bump(res, 'graphs_edited_in_place_between_calls')
+            desc = dict(desc, edited_in_place=ops)
     N = G.number_of_nodes()
     degs = [d for _, d in G.degree()]
     # --- get_Pk
